@@ -127,6 +127,8 @@ type Engine struct {
 	Races           map[string]string
 	Reached         map[string]bool
 	snapCodec       string
+	Timed           bool    // timed semantics for timers (see annotateTimed)
+	curAlt          FireAlt // the alternative being fired
 	Bounds          map[string]int // harness size parameters overriding the quick-tier defaults (vrt.Bound)
 	WitnessWanted   bool
 	ReportAll       bool
